@@ -700,3 +700,8 @@ def finish(ctx):
                  ("wav:fd-seen-open-before-exhaustion", 400),
                  ("wav:resource-warning-recording", 1500)]:
     ctx.need(key, n)
+
+
+# extension families (second round of seeded changes), see props/c18_x.py
+from props import c18_x as _x, ext as _ext
+_ext.install(globals(), _x)
